@@ -1,9 +1,12 @@
 import Cfi.Line
 import Spec.C09
+import Proofs.LayoutBin
+import Proofs.LitLaw
+import Proofs.Splice
 /-! C09 — property theorems (integer bijection; the float and line-level
 theorems are added as they are completed). -/
 namespace Props.C09
-open Cfi Cfi.Bin
+open Cfi Cfi.Bin Cfi.Text
 
 theorem length_leBytes (w n : Nat) : (leBytes w n).length = w := by
   induction w generalizing n with
@@ -134,5 +137,224 @@ theorem missing_text_is_blank (f : Field) (hk : f.kind = .lit) :
 /-- non-vacuity -/
 example : (encodeInt 2 (-2)).bind (decodeInt 2) = some (-2) ∧ encodeInt 2 (-2) = some [254, 255] ∧
     encodeInt 2 32768 = none ∧ decodeInt 2 [0x20, 0x20] = some 8224 := by decide
+/-! ### whole binary lines -/
+
+/-- the per-field binary law: the encoding is exactly `size` bytes wide and decodes
+to the canonical form -/
+def BinLaw (f : Field) (v : Val) : Prop :=
+  ∃ b, rendersToBin f v b ∧ (parseBin f.kind f.size b).getD .none = Spec.C09.canon f v
+
+/-- **Integers in range** obey the binary law (two's complement little endian,
+widths 2 / 4 / 8). -/
+theorem binLaw_int (f : Field) (n : Int) (hk : f.kind = .int) (hgeo : f.stop = f.size + f.start)
+    (hsz : f.size = 2 ∨ f.size = 4 ∨ f.size = 8)
+    (hlo : -(2 ^ (8 * f.size - 1) : Int) ≤ n) (hhi : n < 2 ^ (8 * f.size - 1)) : BinLaw f (.int n) := by
+  have hw : intWidthBits f.size / 8 = f.size := by
+    rcases hsz with h | h | h <;> rw [h] <;> decide
+  have hpos : 0 < f.size := by omega
+  have hde := decode_encode f.size n hpos hlo hhi
+  cases he : encodeInt f.size n with
+  | none => simp [he] at hde
+  | some b =>
+    simp only [he, Option.bind_some] at hde
+    have hlenb : b.length = f.size := by
+      simp only [encodeInt] at he
+      split at he
+      · injection he with he; rw [← he, length_leBytes]
+      · exact absurd he (by simp)
+    refine ⟨b, ⟨?_, hlenb, hgeo⟩, ?_⟩
+    · simp [renderBin, hk, Val.isNull, hw, he, Option.elim]
+    · simp [parseBin, hk, hw, hde, Spec.C09.canon, Val.isNull]
+
+/-- a missing integer is stored as zero and reads back as zero -/
+theorem binLaw_int_null (f : Field) (v : Val) (hn : v.isNull = true) (hk : f.kind = .int)
+    (hgeo : f.stop = f.size + f.start) (hsz : f.size = 2 ∨ f.size = 4 ∨ f.size = 8) : BinLaw f v := by
+  have hw : intWidthBits f.size / 8 = f.size := by
+    rcases hsz with h | h | h <;> rw [h] <;> decide
+  refine ⟨leBytes f.size 0, ⟨?_, length_leBytes _ _, hgeo⟩, ?_⟩
+  · simp [renderBin, hk, hn, hw]
+  · simp only [parseBin, hk, hw, Spec.C09.canon, hn, if_true]
+    rcases hsz with h | h | h <;> rw [h] <;> decide
+
+/-! ASCII text -/
+
+theorem utf8Encode_ascii (s : List Char) (h : ∀ c ∈ s, c.toNat < 128) :
+    utf8Encode s = s.map (fun c => UInt8.ofNat c.toNat) := by
+  induction s with
+  | nil => rfl
+  | cons c cs ih =>
+    have hc := h c (by simp)
+    have : utf8EncodeChar c = [UInt8.ofNat c.toNat] := by simp [utf8EncodeChar, hc]
+    simp only [utf8Encode, List.flatMap_cons, this, List.map_cons] at ih ⊢
+    rw [ih (fun x hx => h x (by simp [hx]))]
+    rfl
+
+theorem utf8Decode_ascii (s : List Char) (h : ∀ c ∈ s, c.toNat < 128) (fuel : Nat) (hf : s.length < fuel) :
+    utf8Decode fuel (s.map (fun c => UInt8.ofNat c.toNat)) = some s := by
+  induction s generalizing fuel with
+  | nil => cases fuel with
+    | zero => omega
+    | succ f => rfl
+  | cons c cs ih =>
+    cases fuel with
+    | zero => omega
+    | succ f =>
+      have hc := h c (by simp)
+      have hb : (UInt8.ofNat c.toNat) < 0x80 := by
+        rw [UInt8.lt_iff_toNat_lt]
+        simp only [UInt8.toNat_ofNat']
+        have : c.toNat % 256 = c.toNat := Nat.mod_eq_of_lt (by omega)
+        rw [this]; exact hc
+      have hb2 : (UInt8.ofNat c.toNat).toNat = c.toNat := by
+        simp only [UInt8.toNat_ofNat']
+        exact Nat.mod_eq_of_lt (by omega)
+      simp only [List.map_cons, utf8Decode, hb, if_true, hb2,
+        ih (fun x hx => h x (by simp [hx])) f (by simpa using hf), Option.map_some]
+      rw [Char.ofNat_toNat]
+
+/-- **ASCII literals** obey the binary law: stored left-justified in `size` bytes,
+read back blank-trimmed -/
+theorem binLaw_lit (f : Field) (s : List Char) (hk : f.kind = .lit) (hgeo : f.stop = f.size + f.start)
+    (hascii : ∀ c ∈ s, c.toNat < 128) (hfit : s.length ≤ f.size) : BinLaw f (.str s) := by
+  have hpad : ∀ c ∈ ljust s f.size ' ', c.toNat < 128 := by
+    intro c hc
+    simp only [ljust, List.mem_append, List.mem_replicate] at hc
+    rcases hc with hc | hc
+    · exact hascii c hc
+    · rw [hc.2]; decide
+  have henc := utf8Encode_ascii _ hpad
+  refine ⟨utf8Encode (ljust s f.size ' '), ⟨?_, ?_, hgeo⟩, ?_⟩
+  · simp [renderBin, hk, Val.isNull]
+  · rw [henc, List.length_map, length_ljust]; omega
+  · simp only [parseBin, hk, decodeUtf8, henc]
+    rw [utf8Decode_ascii _ hpad _ (by simp)]
+    simp [Spec.C09.canon, hk, Val.isNull, strip_ljust]
+
+/-- a missing literal is stored as blanks and reads back as the empty string -/
+theorem binLaw_lit_null (f : Field) (v : Val) (hn : v.isNull = true) (hk : f.kind = .lit)
+    (hgeo : f.stop = f.size + f.start) : BinLaw f v := by
+  have hb : List.replicate f.size (32 : UInt8) = (List.replicate f.size ' ').map (fun c => UInt8.ofNat c.toNat) := by
+    simp [List.map_replicate]
+  refine ⟨List.replicate f.size 32, ⟨?_, by simp, hgeo⟩, ?_⟩
+  · simp [renderBin, hk, hn]
+  · simp only [parseBin, hk, decodeUtf8, hb]
+    rw [utf8Decode_ascii _ (by intro c hc; simp only [List.mem_replicate] at hc; rw [hc.2]; decide) _ (by simp)]
+    simp [Spec.C09.canon, hk, hn, strip_replicate_blank]
+
+/-- the facts about a written binary line, for every disjoint layout under the
+per-field law: length, blank gaps, spans, read-back -/
+theorem line_facts (fs : List Field) (vs : List Val) (hlen : fs.length = vs.length)
+    (hdis : Cfi.Disjoint fs) (hlaw : ∀ fv ∈ fs.zip vs, BinLaw fv.1 fv.2) :
+    ∃ out rs, writeBinLine fs vs = .ok out ∧ out.length = Spec.C02.maxEnd fs ∧
+      GapInvBin fs out ∧
+      All2 (fun (fv : Field × Val) b => rendersToBin fv.1 fv.2 b) (fs.zip vs) rs ∧
+      All2 (fun (f : Field) b => slice out f.start f.stop = b) fs rs ∧
+      readBinLine fs out = (fs.zip vs).map (fun fv => Spec.C09.canon fv.1 fv.2) := by
+  have hrs : ∃ rs, All2 (fun (fv : Field × Val) b => rendersToBin fv.1 fv.2 b ∧
+      (parseBin fv.1.kind fv.1.size b).getD .none = Spec.C09.canon fv.1 fv.2) (fs.zip vs) rs := by
+    generalize fs.zip vs = zs at hlaw
+    induction zs with
+    | nil => exact ⟨[], .nil⟩
+    | cons z zs ih =>
+      obtain ⟨b, h1, h2⟩ := hlaw z List.mem_cons_self
+      obtain ⟨rs, hrs⟩ := ih (fun fv hfv => hlaw fv (List.mem_cons_of_mem z hfv))
+      exact ⟨b :: rs, .cons ⟨h1, h2⟩ hrs⟩
+  obtain ⟨rs, hrs⟩ := hrs
+  have hr : All2 (fun (fv : Field × Val) b => rendersToBin fv.1 fv.2 b) (fs.zip vs) rs := by
+    generalize fs.zip vs = zs at hrs
+    induction hrs with
+    | nil => exact .nil
+    | cons h _ ih => exact .cons h.1 ih
+  -- the write succeeds
+  have hok : ∀ (fs : List Field) (vs : List Val) (rs : List (List UInt8)),
+      All2 (fun (fv : Field × Val) b => rendersToBin fv.1 fv.2 b) (fs.zip vs) rs → fs.length = vs.length →
+      ∀ line, ∃ out, writeFieldsBin fs vs line = .ok out := by
+    intro fs
+    induction fs with
+    | nil => intro vs _ _ _ line; exact ⟨line, by cases vs <;> rfl⟩
+    | cons f fs ih =>
+      intro vs rs hr hl line
+      cases vs with
+      | nil => simp at hl
+      | cons v vs =>
+        simp only [List.zip_cons_cons] at hr
+        cases hr with
+        | @cons _ b _ rs' h1 hrest =>
+          obtain ⟨hrend, _, _⟩ := h1
+          dsimp only at hrend
+          obtain ⟨out, hout⟩ := ih vs rs' hrest (by simpa using hl) (splice line f.start f.stop b 32)
+          exact ⟨out, by simp only [writeFieldsBin, Field.writeBin, hrend, Except.map, bind, Except.bind, hout]⟩
+  obtain ⟨out, hout⟩ := hok fs vs rs hr hlen []
+  have hspans := writeFieldsBin_spans fs vs rs hlen hr hdis [] out hout
+  obtain ⟨hgap, hl⟩ := writeFieldsBin_shape fs vs rs hlen hr [] [] out hout (fun i hi => by simp at hi)
+  refine ⟨out, rs, by simp [writeBinLine, hout], by rw [hl]; rfl, by simpa using hgap, hr, hspans, ?_⟩
+  simp only [readBinLine]
+  clear hgap hl hout hr hdis hlaw hok
+  induction fs generalizing vs rs with
+  | nil => rfl
+  | cons f fs ih =>
+    cases vs with
+    | nil => simp at hlen
+    | cons v vs =>
+      simp only [List.zip_cons_cons] at hrs
+      cases hrs with
+      | cons ha hrest =>
+        cases hspans with
+        | cons hb hrest2 =>
+          simp only [List.map_cons, List.zip_cons_cons, List.cons.injEq]
+          refine ⟨?_, ih vs (by simpa using hlen) _ hrest hrest2⟩
+          simp only [Field.readBin, hb, ha.2]
+
+/-- **Binary line theorem**: for every layout of pairwise disjoint fields (any
+order, gaps allowed) and values obeying the per-field binary law, the written
+line is exactly as long as the furthest field end, has blank (0x20) gaps, holds
+every field's encoding in its own span, and reads back to the canonical values
+— the whole of `Spec.C09.holds`. -/
+theorem line_main (fs : List Field) (vs : List Val) (hlen : fs.length = vs.length)
+    (hdis : Cfi.Disjoint fs) (hlaw : ∀ fv ∈ fs.zip vs, BinLaw fv.1 fv.2) :
+    ∃ o, Spec.C09.cycle fs vs = some o ∧ Spec.C09.holds fs vs o = true := by
+  obtain ⟨out, rs, hw, hl, hgap, hr, hspans, hread⟩ := line_facts fs vs hlen hdis hlaw
+  refine ⟨⟨out, readBinLine fs out⟩, by simp [Spec.C09.cycle, hw], ?_⟩
+  simp only [Spec.C09.holds, Bool.and_eq_true]
+  refine ⟨⟨?_, ?_⟩, by simp [hread]⟩
+  · simp only [Spec.C02.holdsLineBin, Bool.and_eq_true, beq_iff_eq, List.all_eq_true, List.mem_range,
+      Bool.or_eq_true]
+    refine ⟨hl, ?_⟩
+    intro i hi
+    rcases hgap i (by omega) with hc | hb
+    · left; exact hc
+    · right
+      rw [List.getD_eq_getElem?_getD, hb]; rfl
+  · simp only [List.all_eq_true]
+    intro fv hfv
+    have key : ∀ (fs : List Field) (vs : List Val) (rs : List (List UInt8)),
+        All2 (fun (fv : Field × Val) b => rendersToBin fv.1 fv.2 b) (fs.zip vs) rs →
+        All2 (fun (f : Field) b => slice out f.start f.stop = b) fs rs → fs.length = vs.length →
+        ∀ fv ∈ fs.zip vs, (match renderBin fv.1 fv.2 with
+          | .ok b => slice out fv.1.start fv.1.stop == b
+          | .error _ => false) = true := by
+      intro fs
+      induction fs with
+      | nil => intro _ _ _ _ _ fv h; simp at h
+      | cons f fs ih =>
+        intro vs rs h1 h2 hl fv hfv
+        cases vs with
+        | nil => simp at hl
+        | cons v vs =>
+          simp only [List.zip_cons_cons] at h1 hfv
+          cases h1 with
+          | cons ha hrest =>
+            cases h2 with
+            | cons hb hrest2 =>
+              rcases List.mem_cons.mp hfv with rfl | hfv
+              · simp [ha.1, hb]
+              · exact ih vs _ hrest hrest2 (by simpa using hl) fv hfv
+    exact key fs vs rs hr hspans hlen fv hfv
+
+/-- non-vacuity: a reversed layout with a gap, a negative and a missing integer -/
+example :
+    let fs := [Field.mk' .int 4 6, Field.mk' .int 2 0]
+    Spec.C09.cycle fs [.int (-2), .none] =
+      some ⟨[0, 0, 32, 32, 32, 32, 254, 255, 255, 255], [.int (-2), .int 0]⟩ := by decide
 
 end Props.C09
